@@ -23,6 +23,7 @@ import ModVerif.Proofs.EditMarkerInv
 import ModVerif.Proofs.EditPanicRun
 import ModVerif.Proofs.EditReparseF
 import ModVerif.Proofs.EditGoodBlocksC
+import ModVerif.Proofs.EditWorkReparseD
 namespace ModVerif.Props.C15
 open ModVerif ModVerif.EditSpec ModVerif.Modfile
 
@@ -860,5 +861,214 @@ example :
 example : (match parseStrict (B "go.mod") (B "module m\n\ngo (\n\t1.21\n)\n") none with
      | .ok _ => false
      | .error errs => errs.map (·.kind) == [.unknownBlock]) = true := by decide +kernel
+
+/-! ### go.work: `nilDeref_unreachable` and `typed_eq_reparse` (Proofs/EditWorkTotalA.lean, Proofs/EditWorkReparse{A,B,C,D}.lean)
+
+    The go.work counterparts of the two go.mod results above.  `Edit.InvW` has no marker clause, so there is nothing to
+    forget: totality is proved on `InvW` itself.  `Edit.StaticValidW false ops`: the arguments are valid (`ValidArgsW`:
+    non-empty godebug key / use directory / replaced path); `SetUse` has distinct non-empty directories and comes directly
+    after a Cleanup (which makes every typed `use` live: `workCleanup_makes_uses_live`).  `Edit.IsWorkOp`: one of the fourteen
+    operations a `WorkFile` has.  `Edit.W.GoodBlocks`: every block of the tree carries a block verb of `ParseWork`
+    (godebug / use / replace); it is an invariant of EVERY go.work session, with no hypothesis on arguments or state
+    (`WorkFile.AddGoStmt` / `AddToolchainStmt` insert their line by index, they never call `addLine`). -/
+
+/-- after `WorkFile.Cleanup` every typed `use` is live (the state-dependent hypothesis of SetUse) -/
+theorem workCleanup_makes_uses_live (e : Edit.EWork) : ∀ u ∈ (Edit.workCleanup e).f.use, Edit.liveU u = true :=
+  Edit.workCleanup_use_live e
+
+/-- **no panic — EVERY go.work operation** on a state satisfying `InvW`, with arguments valid in that state
+    (`Edit.ValidArgsWAll`: as `ValidArgsW`; SetUse has distinct non-empty directories and runs on live `use` entries): the
+    result is a success or one of the documented returned errors -/
+theorem op_no_panic_work (e : Edit.EWork) (op : Edit.Op) (hv : Edit.ValidArgsWAll e op) (hw : Edit.IsWorkOp op)
+    (hi : Edit.InvW e) : Edit.NoPanic (Edit.applyWork e op) :=
+  Edit.applyWork_noPanic_all e op hv hw hi
+
+/-- `nilDeref_unreachable`, go.work, from a state satisfying `InvW` -/
+theorem nilDeref_unreachable_work_from_state (e : Edit.EWork) (ops : List Edit.Op) (hi : Edit.InvW e)
+    (hv : Edit.StaticValidW false ops) (hw : ∀ op ∈ ops, Edit.IsWorkOp op) :
+    ∃ e' res, Edit.runOps Edit.applyWork e ops [] 0 = .done e' res ∧ Edit.InvW e' ∧ Edit.InvW (Edit.workCleanup e') :=
+  Edit.nilDeref_unreachable_work_state e ops hi hv hw
+
+/-- **nilDeref_unreachable, go.work (FULL).**  For EVERY go.work text accepted by `ParseWork` (no version fixer, as in
+    `sessionWork`) with non-empty keys (`WorkKeys`: observation O5; `NoBlockSuffix`: the recorded `verb () // comment`
+    finding — both as in `parseWork_inv`) and EVERY session of go.work operations whose arguments are statically valid
+    (`Edit.StaticValidW false ops`), the session runs to completion: every operation, in the state in which it runs, succeeds
+    or returns a documented error — it NEVER returns `EditErr.nilDeref` (Go: nil `Syntax` dereference on a cleared entry; the
+    other two panics of the model do not exist for go.work and are listed for symmetry) —, and after the final Cleanup the
+    typed lists are again the directive-level reading of the syntax tree (`Edit.InvW`). -/
+theorem nilDeref_unreachable_work (name data : Bytes) (f : WorkFile) (ops : List Edit.Op)
+    (hf : parseWork name data none = .ok f) (hk : Edit.WorkKeys f) (hs : Edit.NoBlockSuffix f.syn)
+    (hv : Edit.StaticValidW false ops) (hw : ∀ op ∈ ops, Edit.IsWorkOp op) :
+    ∃ e' res, Edit.runOps Edit.applyWork (Edit.loadWork f) ops [] 0 = .done e' res ∧
+      (∀ (pre : List Edit.Op) (op : Edit.Op) (post : List Edit.Op), ops = pre ++ op :: post →
+        ∃ e1 r1, Edit.runOps Edit.applyWork (Edit.loadWork f) pre [] 0 = .done e1 r1 ∧
+          Edit.applyWork e1 op ≠ some (.error .nilDeref) ∧ Edit.applyWork e1 op ≠ some (.error .badStatement) ∧
+          Edit.applyWork e1 op ≠ some (.error .conflictingVersions)) ∧
+      Edit.InvW (Edit.workCleanup e') :=
+  Edit.nilDeref_unreachable_work_parsed name data f ops hf hk hs hv hw
+
+/-- non-vacuity of `nilDeref_unreachable_work` / `nilDeref_unreachable_work_from_state` / `op_no_panic_work`: a parsed go.work (a
+    comment block, `go`, a two-line `use` block with a quoted directory and an end-of-line comment, `replace`, `godebug`)
+    satisfies the start conditions; the session (drops that leave cleared placeholders, a returned error, SetUse twice,
+    each directly after a Cleanup, for both map-iteration orders) is statically valid, consists of go.work operations, and
+    runs to completion with the expected results; `InvW` holds after the final Cleanup (`invWB`) -/
+example :
+    let src := B "// c\n\ngo 1.21\n\nuse (\n\t./a\n\t\"./b c\" // note\n)\n\nreplace example.com/a => ../a\n\ngodebug x=y\n"
+    let ops : List Edit.Op := [.addUse (B "./d") [], .dropUse (B "./a"), .addGo (B "1.x"), .addToolchain (B "go1.22.0"), .cleanup,
+       .setUse [(B "./b c", B "m"), (B "./e", [])] true, .dropUse (B "./e"), .addReplace (B "x.y/z") [] (B "../z") [],
+       .addGodebug (B "k") (B "v"), .dropGodebug (B "x"), .sortBlocks, .cleanup, .setUse [(B "./q", [])] false]
+    (match parseWork (B "go.work") src none with
+     | .ok f => Edit.workStartOKb f && f.syn.stmts.all (fun x => match x with
+         | .lineBlock b => b.comments.suffix.isEmpty
+         | _ => true) &&
+         (match Edit.runOps Edit.applyWork (Edit.loadWork f) ops [] 0 with
+          | .done e res => res == [true, true, false, true, true, true, true, true, true, true, true, true, true] &&
+              Edit.invWB (Edit.workCleanup e)
+          | _ => false)
+     | .error _ => false) &&
+    Edit.staticValidWB false ops && ops.all Edit.isWorkOpB = true := by decide +kernel
+
+/-- the static condition is needed: SetUse NOT directly after a Cleanup dereferences the cleared entry a DropUse left behind
+    (`panic` at operation 1), and the session is not statically valid -/
+example :
+    (match parseWork (B "go.work") (B "go 1.21\n\nuse (\n\t./a\n\t./b\n)\n") none with
+     | .ok f =>
+       (match Edit.runOps Edit.applyWork (Edit.loadWork f) [.dropUse (B "./a"), .setUse [(B "./b", [])] false] [] 0 with
+        | .panic j => j == 1
+        | _ => false)
+     | .error _ => false) &&
+    !Edit.staticValidWB false [.dropUse (B "./a"), .setUse [(B "./b", [])] false] = true := by decide +kernel
+
+/-- `ParseWork` accepts block verbs only -/
+theorem parsed_goodBlocks_work {name data : Bytes} {f : WorkFile} (h : parseWork name data none = .ok f) :
+    Edit.W.GoodBlocks f.syn.stmts ∧ Edit.W.GoodBlocks (Edit.loadWork f).f.syn.stmts :=
+  ⟨Edit.W.parseWork_goodBlocks h, (Edit.W.goodBlocks_loadWork f).2 (Edit.W.parseWork_goodBlocks h)⟩
+
+/-- **every go.work operation preserves `W.GoodBlocks`**, for arbitrary arguments, in ANY state -/
+theorem op_preserves_goodBlocks_work (e e' : Edit.EWork) (op : Edit.Op) (h : Edit.W.GoodBlocks e.f.syn.stmts)
+    (ha : Edit.applyWork e op = some (.ok e')) : Edit.W.GoodBlocks e'.f.syn.stmts :=
+  (Edit.W.gb_iff _).1 (Edit.W.applyWork_gb e e' op ((Edit.W.gb_iff _).2 h) ha)
+
+/-- **`W.GoodBlocks` along a session**: from every parsed go.work, after every session that runs to completion, before and
+    after the final Cleanup, no block of the tree is a `go (` / `toolchain (` block; on `sessionWork`: the Boolean test -/
+theorem goodBlocks_invariant_work (name data : Bytes) (f : WorkFile) (ops : List Edit.Op) (e' : Edit.EWork) (res : List Bool)
+    (hf : parseWork name data none = .ok f) (h : Edit.runOps Edit.applyWork (Edit.loadWork f) ops [] 0 = .done e' res) :
+    Edit.W.GoodBlocks e'.f.syn.stmts ∧ Edit.W.GoodBlocks (Edit.workCleanup e').f.syn.stmts :=
+  Edit.W.goodBlocks_run name data f ops e' res hf h
+
+theorem goodBlocks_invariant_work_session (file : Bytes) (ops : List Edit.Op) (o : Edit.Outcome)
+    (h : Edit.sessionWork file ops = some o) : Edit.W.goodBlocksB o.tree.stmts = true :=
+  Edit.W.goodBlocks_session file ops o h
+
+/-- **Render–reparse for one line, every go.work verb.**  `I`: go.work items (`Edit.W.Item`: go / toolchain / godebug / use /
+    replace) with the ids of their lines, pairwise different ids, every item readable, at most one go / toolchain item
+    (`Edit.W.IOK`).  A line whose full tokens `verb :: args` render an item of `I` not processed yet: `WorkFile.add` appends
+    exactly that item, reports no error and returns the arguments UNCHANGED (`use`: `parseString (AutoQuote p)` reads `p`
+    and re-quotes it to the same token). -/
+theorem reparse_one_line_work {I : List (Nat × Edit.W.Item)} (hI : Edit.W.IOK I) (st : WorkState) (Q : List (Nat × Edit.W.Item))
+    (hfi : Edit.W.FI I st Q) (l : Line) (verb : Bytes) (args : List Bytes) (it : Edit.W.Item)
+    (hmem : (l.id, it) ∈ I) (hfresh : l.id ∉ Q.map (·.1)) (hr : Edit.W.Rend it (verb :: args)) :
+    ∃ st', WorkFile.add st l verb args none = (st', args) ∧ Edit.W.FI I st' (Q ++ [(l.id, it)]) :=
+  Edit.W.add_item hI st Q hfi l verb args it hmem hfresh hr
+
+/-- the first run of `ParseWork`'s directive layer over a whole tree: no error, no token rewritten, typed file = the items,
+    as a multiset -/
+theorem reparse_first_run_work {I : List (Nat × Edit.W.Item)} (hI : Edit.W.IOK I) (T : FileSyntax)
+    (hnd : (Edit.treeIds T.stmts).Nodup) (hok : ∀ x ∈ T.stmts, Edit.W.StmtOK I x) (hsurj : ∀ q ∈ I, q.1 ∈ Edit.treeIds T.stmts) :
+    ∃ st1, workStmts none { file := { syn := T } } T.stmts = (st1, T.stmts) ∧ st1.errsRev = [] ∧
+      (Edit.W.items st1.file).Perm I :=
+  Edit.W.first_run hI T hnd hok hsurj
+
+/-- **typed_eq_reparse for a go.work STATE.**  Any state of the go.work edit model satisfying `InvW`, with live entries only
+    and lines with tokens only (a Cleanup has run), readable values, block verbs on blocks and the comment placement of a
+    parsed file: `ParseWork` accepts `Format` of the tree and returns the same directives (`AbsPermW`: go / toolchain equal;
+    godebug, use, replace equal as multisets). -/
+theorem typed_eq_reparse_work_state (name : Bytes) (e : Edit.EWork) (hi : Edit.InvW e) (hl : Edit.W.AllLive e.f)
+    (hv : Edit.W.VOK e.f) (hll : Edit.LinesLive e.f.syn.stmts) (hgb : Edit.W.GoodBlocks e.f.syn.stmts)
+    (hcom : Edit.comShapeB e.f.syn = true) :
+    ∃ g, parseWork name (format e.f.syn) none = .ok g ∧ Edit.W.AbsPermW (Edit.absOfWork g) (Edit.absOfWork e.f) :=
+  Edit.W.reparse_of_invW name e hi hl hv hll hgb hcom
+
+/-- **typed_eq_reparse, go.work (partial).**  For EVERY go.work text accepted by `ParseWork` (no version fixer, as in
+    `sessionWork`) with non-empty keys and no block suffix comment — the hypotheses of `parseWork_inv` — and EVERY statically
+    valid session: if the session has an outcome `o` (it always runs to completion: `nilDeref_unreachable_work`), then
+    `ParseWork` of the formatted file succeeds, `o.reparsed = some r`, and `r` has the same go version and toolchain and, as
+    multisets, the same godebugs, use directories and replacements as the typed lists after the final Cleanup (`o.typed`).
+    ASSUMED OF THE FINAL STATE (decidable, Boolean tests): `Edit.W.AbsOKW o.typed` (readable values; discharged from the
+    starting file and the arguments in `typed_eq_reparse_work_partial2`) and `Edit.comShapeB o.tree` — the comment placement
+    of a parsed file, the same single final-tree hypothesis as for go.mod (`typed_eq_reparse_partial3`); it is NOT an
+    invariant (SortBlocks / Cleanup move a line with a blank-line placeholder: the example below), and removing it needs the
+    same C02 extension.  The block-verb condition is derived (`goodBlocks_invariant_work`).
+    Not compared: `Use.ModulePath` (never written to the file).  Not covered: parsing with a version fixer. -/
+theorem typed_eq_reparse_work_partial (file : Bytes) (ops : List Edit.Op) (o : Edit.Outcome) (f : WorkFile)
+    (hf : parseWork (B "go.work") file none = .ok f) (hk : Edit.WorkKeys f) (hs : Edit.NoBlockSuffix f.syn)
+    (hv : Edit.StaticValidW false ops) (h : Edit.sessionWork file ops = some o) (hok : Edit.W.AbsOKW o.typed)
+    (hcom : Edit.comShapeB o.tree = true) :
+    ∃ r, o.reparsed = some r ∧ Edit.W.AbsPermW r o.typed :=
+  Edit.W.typed_eq_reparse_work_session file ops o f hf hk hs hv h hok hcom
+
+/-- the same in terms of `runOps` / `workCleanup` / `format` / `parseWork` -/
+theorem typed_eq_reparse_work_partial_run (name name' data : Bytes) (f : WorkFile) (ops : List Edit.Op) (e' : Edit.EWork)
+    (res : List Bool) (hf : parseWork name data none = .ok f) (hk : Edit.WorkKeys f) (hs : Edit.NoBlockSuffix f.syn)
+    (hv : Edit.StaticValidW false ops) (h : Edit.runOps Edit.applyWork (Edit.loadWork f) ops [] 0 = .done e' res)
+    (hok : Edit.W.AbsOKW (Edit.absOfWork (Edit.workCleanup e').f)) (hcom : Edit.comShapeB (Edit.workCleanup e').f.syn = true) :
+    ∃ g, parseWork name' (format (Edit.workCleanup e').f.syn) none = .ok g ∧
+      Edit.W.AbsPermW (Edit.absOfWork g) (Edit.absOfWork (Edit.workCleanup e').f) :=
+  Edit.W.typed_eq_reparse_work_run name name' data f ops e' res hf hk hs hv h hok hcom
+
+/-- **typed_eq_reparse, go.work (partial 2): the values condition is on the STARTING file and the OPERATION LIST.**  As
+    `typed_eq_reparse_work_partial`, with `AbsOKW o.typed` replaced by `AbsOKW (absOfWork f)` (the starting file is well formed
+    in C02's sense: readable paths, valid replace versions) and `ArgsOKW` of every operation (decidable: `argsOKWB`); the
+    operations are go.work operations.  Also returns C08's `Rel o.typed (run …)` and the per-operation results.  The one
+    remaining condition on the final state is `comShapeB o.tree`. -/
+theorem typed_eq_reparse_work_partial2 (file : Bytes) (ops : List Edit.Op) (o : Edit.Outcome) (f : WorkFile)
+    (hf : parseWork (B "go.work") file none = .ok f) (hk : Edit.WorkKeys f) (hs : Edit.NoBlockSuffix f.syn)
+    (hstart : Edit.W.AbsOKW (Edit.absOfWork f)) (hv : Edit.StaticValidW false ops)
+    (hw : ∀ op ∈ ops, Edit.IsWorkOp op) (hargs : ∀ op ∈ ops, Edit.W.ArgsOKW op.toSpec)
+    (h : Edit.sessionWork file ops = some o) (hcom : Edit.comShapeB o.tree = true) :
+    ∃ r, o.reparsed = some r ∧ Edit.W.AbsPermW r o.typed ∧ Rel o.typed (run stdValidity o.start (ops.map Edit.Op.toSpec)) ∧
+      o.res = runOk stdValidity o.start (ops.map Edit.Op.toSpec) :=
+  Edit.W.typed_eq_reparse_work_session2 file ops o f hf hk hs hstart hv hw hargs h hcom
+
+/-- non-vacuity of `typed_eq_reparse_work_partial` / `partial2` / `partial_run` / `typed_eq_reparse_work_state` /
+    `goodBlocks_invariant_work*`: a parsed go.work with a `use` block (quoted directory, end-of-line comment) satisfies the
+    start conditions incl. `AbsOKW`; the session (SetUse directly after a Cleanup, every kind of Add / Drop, a versioned
+    replacement, SortBlocks) is statically valid with readable arguments and consists of go.work operations; its outcome
+    passes `comShapeB` (and `goodBlocksB`), its typed values are readable; and the conclusion is about MULTISETS for a
+    reason: the typed replace list and the re-parsed one differ in order (the `use` lists agree here). -/
+example :
+    let src := B "// c\n\ngo 1.21\n\nuse (\n\t./a\n\t\"./b c\" // note\n)\n\nreplace example.com/a => ../a\n\ngodebug x=y\n"
+    let ops : List Edit.Op := [.addUse (B "./d") [], .dropUse (B "./a"), .addGo (B "1.22"), .addToolchain (B "go1.22.0"), .cleanup,
+       .setUse [(B "./z", B "m"), (B "./b c", []), (B "./e", [])] true, .dropUse (B "./e"), .addReplace (B "x.y/z") [] (B "../z") [],
+       .addReplace (B "example.com/a") (B "v1.0.0") (B "example.com/b") (B "v1.2.0"),
+       .addGodebug (B "k") (B "v"), .dropGodebug (B "x"), .sortBlocks]
+    (match parseWork (B "go.work") src none with
+     | .ok f => Edit.workStartOKb f && f.syn.stmts.all (fun x => match x with
+         | .lineBlock b => b.comments.suffix.isEmpty
+         | _ => true) && Edit.W.absOKWB (Edit.absOfWork f)
+     | .error _ => false) &&
+    Edit.staticValidWB false ops && ops.all Edit.isWorkOpB && ops.all (fun op => Edit.W.argsOKWB op.toSpec) &&
+    Edit.outcomeIs (Edit.sessionWork src ops) (fun o => Edit.comShapeB o.tree && Edit.W.goodBlocksB o.tree.stmts &&
+      Edit.W.absOKWB o.typed && o.reparsed != some o.typed && o.typed.use == [B "./b c", B "./z"] &&
+      (o.reparsed.map (·.use)) == some [B "./b c", B "./z"] && o.typed.go == some (B "1.22") &&
+      (o.reparsed.map (·.go)) == some (some (B "1.22")) &&
+      (o.reparsed.map (·.replace)) != some o.typed.replace) = true := by decide +kernel
+
+/-- `comShapeB` is not an invariant for go.work either: SetUse (which ends with SortBlocks) moves a `use` line preceded by
+    a blank line to the top of its block; the final tree fails the test (and `Format` drops the blank line) -/
+example :
+    Edit.outcomeIs (Edit.sessionWork (B "go 1.21\n\nuse (\n\t./b\n\n\t./a\n)\n") [.sortBlocks])
+      (fun o => !Edit.comShapeB o.tree && Edit.W.absOKWB o.typed && Edit.W.goodBlocksB o.tree.stmts) = true := by
+  decide +kernel
+
+/-- non-vacuity of `reparse_one_line_work` / `reparse_first_run_work`: the items of a one-line go.work -/
+example : Edit.W.IOK [(1, Edit.W.Item.use (B "./a"))] ∧ Edit.W.FI [(1, Edit.W.Item.use (B "./a"))] {} [] ∧
+    Edit.W.Rend (Edit.W.Item.use (B "./a")) [B "use", autoQuote (B "./a")] := by
+  refine ⟨⟨by decide, ?_, ?_, ?_⟩, ⟨rfl, by simp [Edit.W.items], fun q hq => by cases hq⟩, rfl⟩
+  · intro q hq
+    simp only [List.mem_singleton] at hq; subst hq
+    exact Edit.W.itemOKB_sound (by decide +kernel)
+  · intro a b p q h; simp at h
+  · intro a b p q h; simp at h
 
 end ModVerif.Props.C15
